@@ -30,7 +30,7 @@ func TestMain(m *testing.M) {
 			"payload chunks around Limit.Data in both directions. Oracle: reference model written from the statement (see DESIGN C11). "+
 			"NON-TRIVIAL = the history contains a refused request AND (an injected fault OR a disconnect / expiry of a live reservation). "+
 			"DISTINCT = distinct (configuration, sequence of steps with their outcomes). "+
-			"Client: client.Reserve against a scripted relay whose reply is a valid one with 0-2 mutations out of 30; non-trivial = at least one mutation; distinct = distinct mutation list + key roles.",
+			"Client: client.Reserve against a scripted relay whose reply is a valid one with 0-2 mutations out of 40 (reply fields, voucher domain/codec/signature/signer/peer/expiry, transport faults), identities of four key types; non-trivial = at least one mutation; distinct = distinct mutation list + key roles.",
 		"the relay's collection runs every minute counted from relay.New (\"next collection\")",
 		"asnutil.AsnForIPv6 and multiaddr IP extraction are trusted classifications",
 		"record.ConsumeEnvelope is trusted to verify envelope signatures (covered by C08)",
